@@ -114,4 +114,17 @@ theorem run_expr_commute (e : Expr) (q : Prog) (srv : Srv) (tq : Nat) (hq : Serv
   rw [rqe, rq]
   exact ⟨rfl, rfl, rfl⟩
 
+/-- a fault-free `get_result` is a fixed function of the shutdown flag and of local evaluation -/
+theorem getResult_ok_form (p : Prog) (srv : Srv) (ht : p.traceError = none) :
+    getResult p {} srv =
+      (decode {} (match (run p srv).1 with
+        | .ok v => Reply.payload v.dumps true
+        | .error x => Reply.payload (.exc (if srv.shutdown then shutdownExc else x).dumps) true),
+       (run p srv).2) := by
+  simp only [getResult_traced ht, Bool.not_true, Bool.false_eq_true, if_false, handle_getRequest]
+  rfl
+
+theorem served_traceError {srv : Srv} {p : Prog} {t : Nat} (h : Served srv p t) : p.traceError = none := by
+  cases p <;> first | rfl | exact absurd h.2 id
+
 end MlModel.Remote
